@@ -403,6 +403,7 @@ func (fx *fnExec) applyContract(st *state, in ssa.Instruction, ct *Contract, inf
 		res = mkRes(rt, 0, true)
 	}
 	cpost := &specCtx{fx: fx, cur: st, old: pre, names: post, pkg: info.pkg}
+	cpost.ssaArgs = cpre.ssaArgs
 	for _, e := range ct.Ensures {
 		// a callee clause that does not resolve here (e.g. a closure that no longer captures the
 		// variable it names) is not assumed: sound, and reported as an engine error
